@@ -756,3 +756,107 @@ func c10r6(rc *core.RC) {
 	}
 	rc.Check(len(locks) >= 2, "module/locking-functions", token.NoPos, "%d functions take a package-level lock; %d module calls are made while one is held", len(locks), n)
 }
+
+// ---- C10.R7 compiled decoders are read-only while decoding ----
+
+// A decoder object is compiled once per type, cached, and then used by every goroutine that decodes
+// that type. Its Decode, DecodeStream and DecodePath methods, and the methods of the same receiver
+// they call, must not assign to the receiver's fields (lazy initialisation included): sync.Pool
+// fields and what is stored through the destination pointer are not the receiver.
+func c10r7(rc *core.RC) {
+	p := rc.P
+	n := 0
+	byRecv := map[string]map[string]*ast.FuncDecl{}
+	for _, fd := range p.Funcs("decoder") {
+		if fd.Recv == nil || fd.Body == nil || len(fd.Recv.List) == 0 {
+			continue
+		}
+		r := strings.TrimPrefix(types.ExprString(fd.Recv.List[0].Type), "*")
+		if byRecv[r] == nil {
+			byRecv[r] = map[string]*ast.FuncDecl{}
+		}
+		byRecv[r][fd.Name.Name] = fd
+	}
+	for recvName, methods := range byRecv {
+		if !strings.HasSuffix(recvName, "Decoder") {
+			continue
+		}
+		// methods reachable from the decode entry points through calls on the receiver
+		reach := map[string]bool{}
+		var visit func(name string, depth int)
+		visit = func(name string, depth int) {
+			fd := methods[name]
+			if fd == nil || reach[name] || depth > 3 {
+				return
+			}
+			reach[name] = true
+			if len(fd.Recv.List[0].Names) == 0 {
+				return
+			}
+			info := p.Info(fd)
+			recv := info.Defs[fd.Recv.List[0].Names[0]]
+			ast.Inspect(fd.Body, func(m ast.Node) bool {
+				if c, ok := m.(*ast.CallExpr); ok {
+					if sel, ok := c.Fun.(*ast.SelectorExpr); ok && core.ObjOf(info, sel.X) == recv {
+						visit(sel.Sel.Name, depth+1)
+					}
+				}
+				return true
+			})
+		}
+		for _, e := range []string{"Decode", "DecodeStream", "DecodePath"} {
+			visit(e, 0)
+		}
+		for name := range reach {
+			fd := methods[name]
+			if len(fd.Recv.List[0].Names) == 0 {
+				continue
+			}
+			info := p.Info(fd)
+			recv := info.Defs[fd.Recv.List[0].Names[0]]
+			fn := p.FuncName(fd)
+			n++
+			rc.Touch(fn)
+			var w ast.Node
+			ast.Inspect(fd.Body, func(m ast.Node) bool {
+				var targets []ast.Expr
+				switch x := m.(type) {
+				case *ast.AssignStmt:
+					targets = x.Lhs
+				case *ast.IncDecStmt:
+					targets = []ast.Expr{x.X}
+				}
+				for _, tg := range targets {
+					t := core.Unparen(tg)
+					// d.f = …, d.f[i] = …, d.f.g = …
+					for {
+						switch y := t.(type) {
+						case *ast.IndexExpr:
+							t = core.Unparen(y.X)
+							continue
+						case *ast.SelectorExpr:
+							if core.FieldOf(info, y) != nil {
+								if core.ObjOf(info, y.X) == recv {
+									w = tg
+								}
+								t = core.Unparen(y.X)
+								continue
+							}
+						}
+						break
+					}
+				}
+				return true
+			})
+			key := fn + "/receiver-read-only"
+			if w == nil {
+				rc.OK(key, fd.Pos(), "does not assign to the decoder's own fields")
+			} else {
+				rc.Bad(key, w.Pos(), "%s runs at decode time on a decoder that is cached and shared by all goroutines decoding this type, and assigns `%s`: two first uses at the same moment race on it and leave the cached decoder inconsistent", name, core.Src(p.Fset, w))
+			}
+		}
+	}
+	if n < 40 {
+		rc.Unknown("decoder/decode-time-methods", token.NoPos, "found %d decode-time methods", n)
+	}
+}
